@@ -50,7 +50,7 @@ def scheme_shards(tier, per_scheme_quick=2, per_scheme_thorough=4, budget_quick=
     return specs
 
 
-def iter_cases(spec, ctx, scales=None, classes=None, max_configs=10 ** 9):
+def iter_cases(spec, ctx, scales=None, classes=None, max_configs=10 ** 9, rare_classes=()):
     """Yield (cid, cfg, cls, db, info) for the shard: configurations j, j+J, ...; every database class for each."""
     scheme = spec["scheme"]
     rng = ctx.rng
@@ -65,6 +65,8 @@ def iter_cases(spec, ctx, scales=None, classes=None, max_configs=10 ** 9):
         for cls in (classes or gen.DB_CLASSES):
             if ctx.out_of_time():
                 return
+            if cls in rare_classes and rng.random() > 0.2:
+                continue
             cfg = copy.deepcopy(cfg0)
             scale = rng.choice(scales)
             if scheme in ("CGKO06.SSE1", "CGKO06.SSE2"):
